@@ -148,7 +148,7 @@ Section Assign.
 
   (* ---------- the byte range of the target a step writes ---------- *)
   Definition srange (k : nat) (y : Z) : bool :=
-    match nth k (runs_asg L) RSkip with
+    match nth k (runs_asg false L) RSkip with
     | RSkip => false
     | RManual => inr (nth k Ad 0) (nth k cn 0 * psz (nth k L pparam0)) y
     | REnd e => inr (nth k Ad 0) (nth e As 0 + nth e cn 0 * psz (nth e L pparam0) - nth k As 0) y
@@ -172,8 +172,8 @@ Section Assign.
     forall y, m_d x' y = if srange k y then ms (y - da + sa) else m_d x y.
   Proof.
     intros Hk Hs Hm. cbv zeta. unfold assign_one, srange.
-    destruct (runs_asg_structure L) as [_ [Hs1 _]].
-    destruct (nth k (runs_asg L) RSkip) as [| |e] eqn:Ek.
+    destruct (runs_asg_structure false L) as [_ [Hs1 _]].
+    destruct (nth k (runs_asg false L) RSkip) as [| |e] eqn:Ek.
     - cbn [fst]. auto.
     - rewrite nth_fls, nth_fld by exact Hk. cbn [fst snd].
       pose proof (assign_objs_copy (nth k L pparam0) sb db (psz_pos L Hwf k Hk)
@@ -216,7 +216,7 @@ Section Assign.
     nth j Ad 0 <= y < nth j Ad 0 + nth j cn 0 * psz (nth j L pparam0) ->
     existsb (fun k => srange k y) (seq 0 n) = true.
   Proof.
-    intros Hj Hy. destruct (runs_asg_structure L) as [Hcov [Hs1 _]].
+    intros Hj Hy. destruct (runs_asg_structure false L) as [Hcov [Hs1 _]].
     apply existsb_exists. destruct (Hcov j Hj) as [Hm | (k & e & Hke & Hk)].
     - exists j. split; [apply in_seq; lia|]. unfold srange. rewrite Hm. apply inr_true. lia.
     - destruct (Hs1 _ _ Hk) as [Hb _]. exists k. split; [apply in_seq; fold n in Hb; lia|].
@@ -230,7 +230,7 @@ Section Assign.
   Lemma srange_inside k y : (k < n)%nat -> srange k y = true ->
     da <= y < da + (snd (place L cn sa) - sa).
   Proof.
-    intros Hk H. unfold srange in H. destruct (runs_asg_structure L) as [_ [Hs1 _]].
+    intros Hk H. unfold srange in H. destruct (runs_asg_structure false L) as [_ [Hs1 _]].
     assert (Hfirst : nth 0 As 0 = sa).
     { pose proof (place_first L cn sa Hwf (tuple_ok_cnt_ok L _ _ _ Hts) (proj1 Hsa) (proj2 Hsa)) as Hf.
       unfold As. destruct (fst (place L cn sa)) as [|x xs] eqn:E; [|exact Hf].
@@ -251,7 +251,7 @@ Section Assign.
         pose proof (nth_fls (n - 1) ltac:(lia)) as E. unfold fls, ref_fl in E. fold cn in E. rewrite E. reflexivity. }
       lia. }
     pose proof (As_mono k 0 ltac:(lia)) as M0. cbn [Nat.add] in M0.
-    destruct (nth k (runs_asg L) RSkip) as [| |e] eqn:Ek; [discriminate| |].
+    destruct (nth k (runs_asg false L) RSkip) as [| |e] eqn:Ek; [discriminate| |].
     - apply inr_true in H. rewrite (Ad_As k Hk) in H. pose proof (Hlast k Hk). lia.
     - destruct (Hs1 _ _ Ek) as [Hb _]. fold n in Hb. apply inr_true in H. rewrite (Ad_As k Hk) in H.
       pose proof (Hlast e ltac:(lia)). lia.
